@@ -34,13 +34,13 @@ ENV.update(GOFLAGS="-mod=mod", GOPROXY="off", GOSUMDB="off", GOTOOLCHAIN="local"
 # race build, det = runs repeated in a second process to compare event-log digests.
 PROPS = {
     "C17": dict(engine="codecsim", quick=dict(plain=600000, race=0, det=2000), thorough=dict(plain=40000000, race=0, det=20000)),
-    "C06": dict(engine="muxsim", quick=dict(plain=60000, race=0, det=300), thorough=dict(plain=3000000, race=40000, det=2000)),
+    "C06": dict(engine="muxsim", quick=dict(plain=100000, race=0, det=300), thorough=dict(plain=3000000, race=40000, det=2000)),
     "C13": dict(engine="muxsim", quick=dict(plain=40000, race=6000, det=300), thorough=dict(plain=1500000, race=200000, det=2000)),
-    "C15": dict(engine="muxsim", quick=dict(plain=60000, race=0, det=300), thorough=dict(plain=5000000, race=20000, det=2000)),
-    "C10": dict(engine="muxsim", quick=dict(plain=12000, race=0, det=100), thorough=dict(plain=1000000, race=30000, det=1000)),
-    "C11": dict(engine="registrysim", quick=dict(plain=6500, race=0, det=60), thorough=dict(plain=300000, race=0, det=500)),
-    "C12": dict(engine="registrysim", quick=dict(plain=6000, race=1500, det=60), thorough=dict(plain=400000, race=60000, det=500)),
-    "C16": dict(engine="registrysim", quick=dict(plain=8000, race=0, det=60), thorough=dict(plain=1000000, race=0, det=500)),
+    "C15": dict(engine="muxsim", quick=dict(plain=100000, race=0, det=300), thorough=dict(plain=5000000, race=20000, det=2000)),
+    "C10": dict(engine="muxsim", quick=dict(plain=30000, race=0, det=100), thorough=dict(plain=1000000, race=30000, det=1000)),
+    "C11": dict(engine="registrysim", quick=dict(plain=9000, race=0, det=60), thorough=dict(plain=300000, race=0, det=500)),
+    "C12": dict(engine="registrysim", quick=dict(plain=10000, race=2500, det=60), thorough=dict(plain=400000, race=60000, det=500)),
+    "C16": dict(engine="registrysim", quick=dict(plain=20000, race=0, det=60), thorough=dict(plain=1000000, race=0, det=500)),
 }
 
 COMPONENTS_CODECSIM = {
